@@ -203,6 +203,24 @@ pub fn gen(tier: &str, seed: u64, out: &mut dyn Write) {
             emit(out, &scratch, &format!("rich={} load=1 stores=2 sabot=0 kinds=0 pre={} craft=0 tsp={} e=", rng.below(32), pre, tsp));
         }
     }
+    // a glyph created through the raw `Layer::entry` and then replaced by `insert_glyph` (the usual get-or-create idiom):
+    // API-built and loaded fonts, new names and a name the layer already has, alone and among other edits
+    for (k, e) in [
+        format!("gn.{}", hexs("b")),
+        format!("gn.{}", hexs("a")),
+        format!("gn.{},gn.{}", hexs("fresh.one"), hexs("A_b")),
+        format!("gi.{},gn.{},gr.{}", hexs("zz"), hexs("b"), hexs("zz")),
+        format!("gn.{},gn.{}", hexs("b"), hexs("b")),
+    ]
+    .iter()
+    .enumerate()
+    {
+        for load in 0..2 {
+            for pre in [0u32, 2, 5 * load] {
+                emit(out, &scratch, &format!("rich={} load={} stores={} sabot=0 kinds=0 pre={} craft=0 e={}", [3u32, 31, 0, 7, 16][k], load, load, pre, e));
+            }
+        }
+    }
     emit(out, &scratch, "rich=3 load=1 stores=5 sabot=0 kinds=0 pre=5 craft=0 e=");
     emit(out, &scratch, "rich=3 load=1 stores=5 sabot=0 kinds=0 pre=0 craft=0 sab=d0x e=");
     rm_rf(&scratch);
